@@ -212,7 +212,55 @@ def hash_pure(ctx, h, kind, wit):
     return hv, t
 
 
+def nodes_only_case(ctx, rng, idx):
+    """Hypergraphs WITHOUT hyperedges: the node set is all there is, so node labels that differ only in type (1 vs "1")
+    or nodes that differ only in their metadata must still separate the hashes; insertion order must not."""
+    from hypergraphx.readwrite.hashing import hash_hypergraph
+    from ..history import new_container
+
+    kind = "HDTM"[(idx // 4) % 4]
+    ints = rng.sample([0, 1, 2, 3, 5, 8, 13, 40, 100], rng.randint(1, 4))
+    mds = {n: copy.deepcopy(rng.choice(MDS)) for n in ints}
+    weighted = rng.random() < 0.5
+    ctx.event("nodes-only-content")
+
+    def build(labels, md_of, order):
+        h = new_container(kind, weighted)
+        for n in order:
+            h.add_node(n)
+            if md_of[n]:
+                for f, v in md_of[n].items():
+                    h.set_attr_to_node_metadata(n, f, copy.deepcopy(v))
+        return h
+
+    def wit(extra=None):
+        return {"kind": kind, "nodes": {repr(n): mds[n] for n in ints}, "weighted": weighted, "extra": extra}
+
+    try:
+        a = build(ints, mds, list(ints))
+        b = build(ints, mds, list(reversed(ints)))
+        strs = [str(n) for n in ints]
+        c = build(strs, {str(n): mds[n] for n in ints}, strs)
+        ha, hb, hc = hash_hypergraph(a), hash_hypergraph(b), hash_hypergraph(c)
+    except Exception as e:
+        ctx.check("C07:equal-content-equal-hash", False, f"C07:{kind}:nodes-only:raised:{type(e).__name__}", lambda: wit(repr(e)))
+        return
+    ctx.check("C07:equal-content-equal-hash", ha == hb, f"C07:{kind}:nodes-only:same-content-different-hash(insertion order)", wit)
+    ctx.check("C07:edit-changes-hash", ha != hc, f"C07:{kind}:nodes-only:labels-1-and-'1'-same-hash", wit)
+    n0 = rng.choice(ints)
+    mds2 = dict(mds)
+    mds2[n0] = dict(mds[n0], extra=1)
+    d = build(ints, mds2, list(ints))
+    ctx.check("C07:edit-changes-hash", hash_hypergraph(d) != ha, f"C07:{kind}:nodes-only:node-metadata-edit-kept-hash", wit)
+    if len(ints) >= 2:
+        e = build(ints[:-1], mds, list(ints[:-1]))
+        ctx.check("C07:edit-changes-hash", hash_hypergraph(e) != ha, f"C07:{kind}:nodes-only:one-node-fewer-kept-hash", wit)
+    ctx.distinct_add(("nodes-only", kind, tuple(ints), repr(mds), weighted))
+
+
 def run_case(ctx, rng, idx):
+    if idx % 12 == 7:
+        return nodes_only_case(ctx, rng, idx)
     kind = "HDTM"[idx % 4]
     C, labels, uni = gen_content(rng, kind)
     if len(C.edges) < 1:
